@@ -110,7 +110,42 @@ def diagnose(q, A, B, exp, got, why):
     return 'js-semantics-mismatch'
 
 
+def run_input_errors(sh, res):
+    """error class on inconsistent caller input (column-name lists that do not fit the records, names on one side of a JOIN only): rbql-js reports what rbql-py reports"""
+    from vf.checks import c14
+    from vf import drive
+    batch, meta = [], []
+    cases = [(q, A, B, an, bn) for q, A, B, an, bn, bad in c14.namelen_cases()]
+    cases += [('select a1, b1 join b on a1 == b1', [['k', 'm']], [['k', 'p']], an, bn) for an, bn in ((['x', 'y'], None), (None, ['x', 'y']), (None, None), (['x', 'y'], ['x', 'y']), (['x', 'y'], ['u', 'v']))]
+    for q, A, B, an, bn in cases:
+        got = drive.run_py(q, qcheck.copy_table(A), qcheck.copy_table(B), an, bn)
+        c = {'op': 'query', 'query': q.replace('"u"', "'u'"), 'input': A}
+        if an is not None:
+            c['input_names'] = an
+        if B is not None:
+            c['join'] = B
+            if bn is not None:
+                c['join_names'] = bn
+        batch.append(c)
+        meta.append((q, A, B, an, bn, got))
+    for (q, A, B, an, bn, got), o in zip(meta, js.run_batch(batch)):
+        res.evaluations += 1
+        res.traces += 1
+        res.states += 1
+        pe = got['error'][0] if got['error'] else None
+        je = drive.classify_js(o['error'])[0] if 'error' in o else None
+        if pe != je:
+            res.violation('error-class-differs-from-python', {'lang': 'js', 'query': q, 'A': A, 'B': B, 'a_names': an, 'b_names': bn}, {'python_error_class': pe}, {'js_error_class': je, 'js': o.get('error') or o.get('records')})
+        else:
+            res.feat('input_error_class_agrees' if pe else 'input_ok_agrees')
+            if pe:
+                res.nontrivial += 1
+    return res
+
+
 def run_shard(sh):
+    if sh['src'] == 'input_errors':
+        return run_input_errors(sh, core.Result())
     res = core.Result()
     cases = list(gen_cases(sh))
     n = qcheck.run_js_cases(res, cases, diagnose, tag='js')
@@ -134,13 +169,14 @@ def main(tier, seed):
     for src, n in sizes.items():
         for lo, hi in core.chunks(n, 48):
             shards.append({'tier': tier, 'seed': seed, 'src': src, 'lo': lo, 'hi': hi})
+    shards.append({'tier': tier, 'seed': seed, 'src': 'input_errors', 'lo': 0, 'hi': 0})
     res = core.run_shards('vf.checks.c19', shards)
     return core.finish(PID, tier, seed, res, t0,
-        rule='the language-neutral cases of the C01-C05 and C07 spaces (same generators, same table trees) rendered by the JavaScript printer and run through rbql-js; '
+        rule='the language-neutral cases of the C01-C05 and C07 spaces (same generators, same table trees) rendered by the JavaScript printer and run through rbql-js; the error class on column-name lists that do not fit the records (lengths 0..4 x widths 1..3, both sides) compared with rbql-py; '
              'states = (query, tables) cases, transitions = input rows fed; non-trivial = non-empty result that agrees with the reference',
         assumptions=['a case is skipped when the reference evaluation would feed an operator with operands on which the two languages differ (counted as js_not_neutral_skipped)', 'RefQL is the statement of the semantics'],
         extra={'sources': sizes},
-        min_features={'src_c01': 10000, 'src_c02': 10000, 'src_c03': 10000, 'src_c04': 10000, 'src_c05': 10000, 'src_c07': 1000, 'js_nonempty_agree': 100000})
+        min_features={'src_c01': 10000, 'src_c02': 10000, 'src_c03': 10000, 'src_c04': 10000, 'src_c05': 10000, 'src_c07': 1000, 'js_nonempty_agree': 100000, 'input_error_class_agrees': 500})
 
 
 def replay(rep):
